@@ -271,7 +271,9 @@ def write_replay(prop, payload):
 
 
 def write_evidence(ctx, level, checker_cmd, extra=None):
-    os.makedirs(os.path.join(VERIF, "evidence"), exist_ok=True)
+    # evaluation runs against seeded (mutated) trees must not overwrite the committed evidence
+    evdir = os.environ.get("VERIF_EVIDENCE_DIR") or os.path.join(VERIF, "evidence")
+    os.makedirs(evdir, exist_ok=True)
     cov = {
         "evaluations": ctx.evaluations,
         "distinct_nontrivial": len(ctx.distinct),
@@ -305,6 +307,6 @@ def write_evidence(ctx, level, checker_cmd, extra=None):
         "wall_s": round(ctx.elapsed(), 2),
         "violations": len(ctx.violations) + (1 if (ctx.broken or ctx.disagreements) and not ctx.violations else 0),
     }
-    with open(os.path.join(VERIF, "evidence", "%s.json" % ctx.prop), "w") as f:
+    with open(os.path.join(evdir, "%s.json" % ctx.prop), "w") as f:
         json.dump(ev, f, indent=1, ensure_ascii=True, default=str)
     return ev
